@@ -639,6 +639,8 @@ structure Callable where
   action : Bool := false
   noHooks : Bool := false
   emitter : Option Str := none
+  /-- the callback is the `anonymous_node` of an `ast.Field`: written by `_write_callback(node, anonymous=True)` -/
+  anonymous : Bool := false
   deriving Repr, DecidableEq, Inhabited
 
 def mapMExcept (f : α → Except Err β) : List α → Except Err (List β)
@@ -664,7 +666,8 @@ def extraAttrs (c : Callable) : List (String × Option Str) :=
       ("glib:set-property", c.setProperty),
       ("glib:get-property", c.getProperty)]
   | .vfunction => [("invoker", keepTruthy c.invoker)]
-  | .callback => [("c:type", if c.ctype = some c.name then none else c.ctype)]
+  -- `if not anonymous or callback.ctype != callback.name: attrs.append(('c:type', callback.ctype))`
+  | .callback => [("c:type", if c.anonymous = true ∧ c.ctype = some c.name then none else c.ctype)]
   | .signal => [
       ("when", keepTruthy c.when),
       ("no-recurse", optIf c.noRecurse sOne),
@@ -790,7 +793,8 @@ def parseCallable (ns : Str) (klass : Klass) (x : Xml) : Except Err Callable :=
                     detailed := if klass = .signal then (attrGet "detailed" a).getD sZero == sOne else false,
                     action := if klass = .signal then (attrGet "action" a).getD sZero == sOne else false,
                     noHooks := if klass = .signal then (attrGet "no-hooks" a).getD sZero == sOne else false,
-                    emitter := if klass = .signal then attrGet "emitter" a else none }
+                    emitter := if klass = .signal then attrGet "emitter" a else none,
+                    anonymous := false }
 
 /-! ### what a read/write cycle preserves: canonical forms and the executable side conditions
 
@@ -878,15 +882,16 @@ def canonCallable (c : Callable) : Callable :=
            introspectable := c.introspectable && !c.skip, deprecated := keepTruthy c.deprecated,
            stability := keepTruthy c.stability, docs := canonDocs c.docs, shadowedBy := keepTruthy c.shadowedBy,
            shadows := if truthy c.shadowedBy then none else keepTruthy c.shadows,
-           invoker := keepTruthy c.invoker, ctype := if c.ctype = some c.name then none else c.ctype,
-           when := keepTruthy c.when, emitter := keepTruthy c.emitter }
+           invoker := keepTruthy c.invoker,
+           ctype := if c.anonymous = true ∧ c.ctype = some c.name then none else c.ctype,
+           when := keepTruthy c.when, emitter := keepTruthy c.emitter, anonymous := false }
 
 /-- fields that exist only on one of the four classes are unset on the others; a signal does not throw and
     has no async attributes (`_write_signal` does not write them) -/
 def klassFields (c : Callable) : Bool :=
   (c.klass == .function || (c.symbol.isNone && c.shadowedBy.isNone && c.shadows.isNone && c.movedTo.isNone
       && c.setProperty.isNone && c.getProperty.isNone))
-  && (c.klass == .vfunction || c.invoker.isNone) && (c.klass == .callback || c.ctype.isNone)
+  && (c.klass == .vfunction || c.invoker.isNone) && (c.klass == .callback || (c.ctype.isNone && !c.anonymous))
   && (if c.klass == .signal then !c.throws && c.finishFunc.isNone && c.syncFunc.isNone && c.asyncFunc.isNone
       else c.when.isNone && !c.noRecurse && !c.detailed && !c.action && !c.noHooks && c.emitter.isNone)
 
@@ -942,8 +947,8 @@ def genericAttrs (m : Member) : List (String × Option Str) := [
   ("deprecated-version", keepTruthy m.deprecated),
   ("stability", keepTruthy m.stability)]
 
-/-- `_write_callback(field.anonymous_node)`: always a `<callback>` element of an `ast.Callback` -/
-def asCallback (cb : Callable) : Callable := { cb with klass := .callback, tag := "callback" }
+/-- `_write_callback(field.anonymous_node, anonymous=True)`: always a `<callback>` element of an `ast.Callback` -/
+def asCallback (cb : Callable) : Callable := { cb with klass := .callback, tag := "callback", anonymous := true }
 
 /-- `GIRWriter._write_field(field, parent)` for a record / union `parent`; `names` = the names of `parent.fields` -/
 def writeMember (ns : Str) (names : List (Option Str)) (m : Member) : Except Err Xml :=
